@@ -79,7 +79,9 @@ def run_step(hdir_root, step_job, step_index, timeout=None):
     try:
         p = subprocess.run(
             [sys.executable, "-m", "vf.driver", jp],
-            env=_env(), stdout=log, stderr=subprocess.STDOUT,
+            env=dict(_env(), **{k: str(v) for k, v in
+                                (job.get("env") or {}).items()}),
+            stdout=log, stderr=subprocess.STDOUT,
             timeout=timeout or backstop(), cwd=ROOT,
         )
         rc = p.returncode
